@@ -117,6 +117,7 @@ func (u *c18Up) newScenario() {
 	u.mu.Lock()
 	u.ended = map[string]time.Time{}
 	u.stop = make(chan struct{})
+	u.muted = map[string]chan struct{}{}
 	u.mu.Unlock()
 }
 
@@ -173,7 +174,14 @@ func (u *c18Up) serveLine(c net.Conn) {
 	if ns == -2 {
 		// a silent upstream: it reads the client's EOF, answers nothing and keeps its side open
 		io.Copy(io.Discard, br)
-		close(u.mutedCh(id))
+		ch := u.mutedCh(id)
+		u.mu.Lock()
+		select {
+		case <-ch:
+		default:
+			close(ch)
+		}
+		u.mu.Unlock()
 		<-u.stopCh()
 		return
 	}
